@@ -965,6 +965,34 @@ func genContexts(w *bufio.Writer) {
 	}
 }
 
+// genFixed: small families that random generation reaches too rarely: runs of EMPTY comment lines (1–6) in every position,
+// blanks inside the braces of an interpolation, commands with `;`, runs of blanks and tabs, a byte order mark at the start
+// and between statements, a string opened at the end of its line and never closed, with text on the lines after it
+func genFixed(w *bufio.Writer) {
+	for k := 1; k <= 6; k++ {
+		e := strings.Repeat("#\n", k)
+		for _, p := range []string{e, e + "task t() {}\n", "x := \"v\"\n" + e, "x := \"v\"\n" + e + "task t() {\n echo a\n}\n", "# head\n" + e + "x := \"v\"\n",
+			"task t() {}\n" + e + "# tail\n", e + "\n" + e + "task t() {}\n", "# a\n" + e + "# b\n" + e + "task t() {}\n", strings.Repeat("# \n", k) + "task u() {}\n"} {
+			fmt.Fprintln(w, hx(p))
+		}
+	}
+	for _, c := range []string{"echo {{ .X }}", "echo {{  .X  }}", "echo {{   .X}}", "echo {{.X   }}", "echo {{ }}", "echo {{  }} {{   .Y   }}", "echo a; echo b", "for i in 1 2; do echo $i; done",
+		"echo \"a; b\"", "echo 'two  blanks'", "echo  two  blanks", "a\t\tb", "echo a ;", ";", "echo {{\t.X\t}}"} {
+		fmt.Fprintln(w, hx("task t() {\n    "+c+"\n}\n"))
+		fmt.Fprintln(w, hx("task t() { "+c+" }\n"))
+		fmt.Fprintln(w, hx("X := \"1\"\ntask t() {\n    echo first\n    "+c+"\n    "+c+"\n}\n"))
+	}
+	bom := "\xef\xbb\xbf"
+	for _, p := range []string{bom, bom + "x := \"v\"\n", bom + "# c\ntask t() {}\n", "x := \"v\"\n" + bom + "y := \"w\"\n", "task t() {}\n" + bom, bom + bom + "task t() {}\n", "# c\n" + bom + "\n"} {
+		fmt.Fprintln(w, hx(p))
+	}
+	for _, p := range []string{"DOCS := \"\n./docs/build\n", "x := \"v\"\nDOCS := \"\n./docs\n# c\n", "task t(\"\n  a.go\") {}\n", "task t() -> \"\nout\n{}\n", "x := join(\"\na\", \"b\")\n",
+		"task build(test", "task docs() -> DOCS", "BIN := join(ROOT", "BIN", "BIN \n\n", "task build(test \n", "x := \"v\"\nBIN"} {
+		fmt.Fprintln(w, hx(p))
+		fmt.Fprintf(w, "%s BINS\n", hx(p))
+	}
+}
+
 // genBinShow: malformed inputs handed to the real binary (BINS): long lines around the error, truncated and mutated programs
 func genBinShow(w *bufio.Writer, rng *rand.Rand, n int) {
 	long := strings.Repeat("x", 70000)
@@ -1000,6 +1028,7 @@ func syntaxGen(w *bufio.Writer, a map[string]string) {
 	case "C06":
 		genRuneSweep(w, true)
 		genSpecLayout(w, rng, 40000*scale, true, false)
+		genFixed(w)
 		// … and through the real binary: what `--fmt` leaves in the file is the model's print of the structure written
 		genBinary(w, rng, 500*scale)
 	case "C07", "C11", "C15":
@@ -1012,12 +1041,14 @@ func syntaxGen(w *bufio.Writer, a map[string]string) {
 			fmt.Fprintln(w, hx(mutate(rng, p)))
 		}
 		genRandSymbols(w, rng, 20000*scale)
+		genFixed(w)
 		genBinary(w, rng, 1200*scale)
 	default: // C16, C08 and anything else: the malformed stream dominates
 		genRuneSweep(w, false)
 		genByteSweep(w)
 		genLongLines(w)
 		genContexts(w)
+		genFixed(w)
 		if prop == "C08" {
 			genBinShow(w, rng, 2500*scale)
 		}
